@@ -499,10 +499,10 @@ Example html_rawtext_nonvacuous :
     map (fun r => (fst (fst r), snd (fst r))) tr = [(StartTagT, Some (mkSl 0 7)); (StartTagCloseT, Some (mkSl 7 1)); (TextT, Some (mkSl 8 11))].
 Proof. eexists. split; [vm_compute; reflexivity|reflexivity]. Qed.
 
-(* ---- further clauses of the property text that are false on the current code (found while modelling) ------------ *)
-(* <svg><text>5(double quote) pipe</text></svg><p> : one SVG token up to the end of input, the closing svg tag and the p tag included *)
-Lemma html_svg_quote_refuted_proof :
+(* ---- the former finding c09-svg:quote (fixed in /repo 5054993): a quote in character data is not an attribute quote ---- *)
+(* <svg><text>5(double quote) pipe</text></svg><p> : the SVG token ends after the closing svg tag (31 bytes), the p tag follows *)
+Example html_svg_quote_fixed :
   let d := [60;115;118;103;62;60;116;101;120;116;62;53;34;32;112;105;112;101;60;47;116;101;120;116;62;60;47;115;118;103;62;60;112;62] in
-  exists l', next no_tmpl (new_lexer d) = Ok (SvgT, Some (mkSl 0 (len d)), l') /\ len d = 34.
+  exists l', next no_tmpl (new_lexer d) = Ok (SvgT, Some (mkSl 0 31), l') /\ len d = 34.
 Proof. eexists. split; vm_compute; reflexivity. Qed.
 
